@@ -78,18 +78,23 @@ def files_explore(ctx, replay=None):
     verif = os.path.dirname(os.path.dirname(os.path.abspath(__file__)))
     repo_src = os.environ.get("VERIF_REPO", "/repo") + "/src"
     viol, kills, kinds = [], 0, ["json", "text", "pickle"]
-    cases = [(k, w) for k in (kinds if ctx.tier != "quick" else [rng.choice(kinds)]) for w in ((1, 2) if ctx.tier != "quick" else (rng.choice([1, 2]),))]
+    cases = [(k, w, first) for k in (kinds if ctx.tier != "quick" else [rng.choice(kinds)])
+             for w in ((1, 2) if ctx.tier != "quick" else (rng.choice([1, 2]),)) for first in (False, True)]
     if replay is not None:
-        cases = [(replay["kind"], replay["workers"])]
-    for kind, workers in cases:
+        cases = [(replay["kind"], replay["workers"], replay.get("first", False))]
+    for kind, workers, first in cases:
         base = tempfile.mkdtemp(prefix="c08f_")
         try:
-            # a valid earlier state: complete run on source value 1, then the source is updated to 2 (everything out of date)
-            json.dump(1, open(os.path.join(base, "src.json"), "w"))
-            plan, reg, out = build(base, kind)
-            uberjob.run(plan, registry=reg, output=out, progress=None)
-            os.utime(os.path.join(base, "src.json"))
-            json.dump(2, open(os.path.join(base, "src.json"), "w"))
+            if first:
+                # the very first run: only the source exists, every stored value is written for the first time
+                json.dump(2, open(os.path.join(base, "src.json"), "w"))
+            else:
+                # a valid earlier state: complete run on source value 1, then the source is updated to 2 (everything out of date)
+                json.dump(1, open(os.path.join(base, "src.json"), "w"))
+                plan, reg, out = build(base, kind)
+                uberjob.run(plan, registry=reg, output=out, progress=None)
+                os.utime(os.path.join(base, "src.json"))
+                json.dump(2, open(os.path.join(base, "src.json"), "w"))
             nops = 40
             ks = range(nops) if replay is None else [replay["k"]]
             for k in ks:
@@ -121,8 +126,8 @@ def files_explore(ctx, replay=None):
                     if what and replay is not None:
                         return what
                     if what:
-                        viol.append({"property": "C08", "what": f"{kind} stores, {workers} worker(s): {what}",
-                                     "replay_fn": "files", "kind": kind, "workers": workers, "k": k, "after": after})
+                        viol.append({"property": "C08", "what": f"{kind} stores, {workers} worker(s), {'first run' if first else 'rebuild'}: {what}",
+                                     "replay_fn": "files", "kind": kind, "workers": workers, "k": k, "after": after, "first": first})
                         break
                 if viol or k >= nops:
                     break
